@@ -185,7 +185,7 @@ fn rule(target: Target) -> &'static str {
         Target::C16 => "stateful proptest (same campaign): after every committed transaction every MarginfiAccount in the store: distinct banks, one side per bank, sorted active slots, tag rules, <= 8 integration / <= 16 positions, tags stable; close only when empty & unflagged; disabled accounts cannot act; transfer moves positions once. Non-trivial = an account reached >= 3 positions and a position was closed or a liquidation/bankruptcy ran.",
         Target::C03 => "stateful proptest (same campaign): for every successful deposit/withdraw/borrow/repay (+all variants) compare, in exact rationals at the share values the instruction transacted at, tokens the user received vs value removed from the position, and value credited vs tokens that reached the vault (few-ulp allowance); withdraw_all pays <= floor(value), repay_all brings >= debt. Non-trivial = amount > 0 on a bank whose share values differ from 1 (reached by real accrual or real loss socialisation). Plus the exhaustive round-trip driver (see labels).",
         Target::C06 => "stateful proptest (same campaign) + differential probe: after every successful transacting instruction bank.last_update == clock and share values never decrease; from the pre-state, [accrue; op] and [op] must end in bit-identical bank totals/share values/fees/vaults and user shares (an instruction that transacts against stale share values differs); accrue twice at one timestamp leaves the bank bytes unchanged. Non-trivial = probe executed on a bank with loans and dt > 0. Plus the pure accrual-function check (labels accrual:*).",
-        Target::C17 => "stateful proptest (same campaign, limits drawn from {0, small, mid, u64::MAX}): after successful deposit A*asv < deposit_limit, after successful borrow L*lsv < borrow_limit and A*asv >= L*lsv, after withdraw A*asv >= L*lsv, deposit_up_to_limit never fails with the capacity error. Non-trivial = a capacity/limit/utilisation rejection was observed in the sequence (the frontier was reached) or an up-to-limit deposit accrued interest inside the instruction.",
+        Target::C17 => "stateful proptest (same campaign, limits drawn from {0, small, mid, u64::MAX}): after successful deposit A*asv < deposit_limit, after successful borrow L*lsv < borrow_limit and A*asv > L*lsv - 1 ulp (2^-48 native units: the truncation of the program's own I80F48 comparison), after withdraw the same, deposit_up_to_limit never fails with the capacity error. Non-trivial = a capacity/limit/utilisation rejection was observed in the sequence (the frontier was reached) or an up-to-limit deposit accrued interest inside the instruction.",
     }
 }
 
